@@ -99,6 +99,50 @@ def run(chk):
             d = b''.join(unhex(b.split(':')[0]) for b in spec.split('+'))
         lines.append('rencm 1 131072 %s' % spec)
         datas.append(([d], 131072))
+    # offset codes with a flat histogram over many codes plus one rare code (the normalised counts then exceed the
+    # largest table the format allows for offsets and must be scaled down)
+    for i in range(24 if thorough else 8):
+        h0 = rng.bytes(70000)
+        cur = bytearray()
+        seqs = []
+        lo = rng.choice([4, 4, 5])
+        cnt = rng.choice([24, 28, 31, 31])
+        codes = [lo] + [c for c in range(lo + 1, 16) for _ in range(cnt)]
+        for j in range(len(codes) - 1, 0, -1):
+            k = rng.below(j + 1)
+            codes[j], codes[k] = codes[k], codes[j]
+        for c in codes:
+            ll = rng.choice([1, 2, 3])
+            cur += rng.bytes(ll)
+            ov = (1 << c) + rng.below(1 << c)          # offset value with code c; the distance is ov - 3
+            off = max(1, ov - 3)
+            whole = h0 + bytes(cur)
+            ml = rng.choice([8, 16])
+            cur += encgen.fast_copy(whole, off, ml)
+            seqs.append((ll, off, ml))
+        lines.append('rencm 1 131072 %s+%s' % (encgen.block_spec(h0, []), encgen.block_spec(bytes(cur), seqs)))
+        datas.append(([h0 + bytes(cur)], 131072))
+    # two literal-only blocks in a row, the second one's alphabet = the first one's plus one byte that fills a hole and is
+    # (one of) the most frequent: table reuse must not be chosen when the old table cannot encode the new byte
+    for i in range(120 if thorough else 40):
+        nsym = rng.choice([2, 3, 4, 5, 8, 9, 16, 17, 32, 33, 64, 65, 66, 128, 129, rng.range(2, 200)])
+        universe = list(range(rng.below(40), 256))
+        for j in range(len(universe) - 1, 0, -1):
+            k = rng.below(j + 1)
+            universe[j], universe[k] = universe[k], universe[j]
+        S = sorted(universe[:nsym])
+        holes = [v for v in range(S[0] + 1, S[-1]) if v not in S]
+        if not holes:
+            continue
+        h = rng.choice(holes)
+        top = rng.choice(S)
+        def draw(alpha, heavy, n):
+            return bytes(heavy[rng.below(len(heavy))] if rng.below(3) == 0 else alpha[rng.below(len(alpha))] for _ in range(n))
+        n1, n2 = rng.choice([1100, 3000]), rng.choice([1100, 3000])
+        B1 = bytes(S) * 2 + draw(S, [top], n1)
+        B2 = bytes(S + [h]) * 2 + draw(S + [h], [top, h] if rng.below(2) else [h], n2)
+        lines.append('rencm 1 131072 %s+%s' % (encgen.block_spec(B1, []), encgen.block_spec(B2, [])))
+        datas.append(([B1 + B2], 131072))
     # the recorded replays of repaired findings run first
     for fn in ('F5_rencm_line.txt', 'F9_rencm_line.txt'):
         try:
